@@ -1,9 +1,15 @@
 //! C19 — $ENV{NAME} expansion observed through the three public call sites.
-//! case: ( site path env pattern )      (the model's copy carries a 5th field, see below)
+//! case: ( site path env pattern more rolls )      (the model's copy carries a 7th field, see below)
 //!   site 0: FileAppender::builder().build(root/path)
 //!   site 1: RollingFileAppender::builder().build(root/path, no-op policy)
-//!   site 2: FixedWindowRoller::builder().build(root/pattern, 1) then roll(file): the archive
-//!           goes to expand(pattern with "{}" -> "0"); `path` is that substituted text
+//!   site 2: FixedWindowRoller::builder().build(root/pattern, count) with count = 1 + len(more), then
+//!           `rolls` successive roll(file) calls, the j-th on a fresh file whose content is the
+//!           number j.  Archive i goes to expand(pattern with "{}" -> i); `path` is that text for
+//!           i = 0 and `more` lists it for i = 1 .. count-1 (used by the model only)
+//!   site 10, 11, 12: the same call sites with the path handed over RELATIVE (no temp-root prefix; the
+//!           working directory is the temp root during the call), so that the text reaching
+//!           expand_env_vars starts with the generated path itself.  The generator uses these only for
+//!           cases without any '/' in path and values (nothing can then leave the temp root).
 //!   path, pattern: code point lists;  env: ( (name value) ... ) the variables that are set
 //! Every variable of the process environment is removed at start-up (TMPDIR excepted), the
 //! case's variables are set before and removed after the call.
@@ -12,7 +18,9 @@
 //!          (the oracle the model is run with)
 //!   obs: (1 relpath) exactly one regular file below the temp root, at relpath (code points)
 //!        (0 n)       n != 1 files appeared
-//!        (2)         the builder / roll returned an error
+//!        (2)         the builder / a roll returned an error
+//!        site 2: (3 ((relpath j) ...)) every regular file below the temp root with the number
+//!                it contains (0 if it is not a number), sorted by relpath
 use std::path::Path;
 use vh::val::Val;
 
@@ -67,7 +75,8 @@ impl Drop for EnvGuard {
 
 fn run(case: &Val) -> Val {
     let c = case.l();
-    let site = c[0].n();
+    let rel = c[0].n() >= 10;
+    let site = c[0].n() % 10;
     let path = text_of(&c[1]);
     let pattern = text_of(&c[3]);
     let mut alnum: Vec<u32> = path
@@ -91,25 +100,69 @@ fn run(case: &Val) -> Val {
 
     let root = tempfile::tempdir().expect("tempdir");
     let root_s = root.path().to_str().expect("utf8 temp root").to_string();
+    let at = |p: &str| if rel { p.to_string() } else { format!("{}/{}", root_s, p) };
+    struct CwdGuard(bool);
+    impl Drop for CwdGuard {
+        fn drop(&mut self) {
+            if self.0 {
+                let _ = std::env::set_current_dir("/");
+            }
+        }
+    }
+    if rel {
+        assert!(!path.contains('/') && !pattern.contains('/'), "relative mode: no separators");
+        std::env::set_current_dir(root.path()).expect("chdir into temp root");
+    }
+    let _cwd = CwdGuard(rel);
     let ok = match site {
         0 => FileAppender::builder()
-            .build(format!("{}/{}", root_s, path))
+            .build(at(&path))
             .is_ok(),
         1 => RollingFileAppender::builder()
-            .build(format!("{}/{}", root_s, path), Box::new(NoPolicy))
+            .build(at(&path), Box::new(NoPolicy))
             .is_ok(),
         _ => {
+            let count = 1 + c[4].l().len() as u32;
+            let rolls = c[5].n();
             let src_dir = tempfile::tempdir().expect("tempdir");
             let src = src_dir.path().join("active.log");
-            std::fs::write(&src, b"x\n").expect("write source");
-            match FixedWindowRoller::builder().build(&format!("{}/{}", root_s, pattern), 1) {
-                Ok(r) => r.roll(&src).is_ok(),
+            match FixedWindowRoller::builder().build(&at(&pattern), count) {
+                Ok(r) => {
+                    let mut ok = true;
+                    for j in 1..=rolls {
+                        std::fs::write(&src, format!("{}", j)).expect("write source");
+                        if r.roll(&src).is_err() {
+                            ok = false;
+                            break;
+                        }
+                    }
+                    ok
+                }
                 Err(_) => false,
             }
         }
     };
     let obs = if !ok {
         Val::L(vec![Val::N(2)])
+    } else if site == 2 {
+        let mut files = vec![];
+        list_files(root.path(), &mut files);
+        let mut items: Vec<(String, u128)> = files
+            .iter()
+            .map(|f| {
+                let rel = f.strip_prefix(root.path()).expect("below root");
+                let n = std::fs::read_to_string(f)
+                    .ok()
+                    .and_then(|t| t.trim().parse::<u128>().ok())
+                    .unwrap_or(0);
+                (rel.to_str().expect("utf8 file name").to_string(), n)
+            })
+            .collect();
+        items.sort();
+        Val::L(vec![
+            Val::N(3),
+            Val::L(items.iter().map(|(p, n)| Val::L(vec![cps_of(p), Val::N(*n)])).collect()),
+        ])
     } else {
         let mut files = vec![];
         list_files(root.path(), &mut files);
